@@ -4,7 +4,7 @@ using namespace mustache;
 
 TemporalStorage::~TemporalStorage() {
     for (const auto& action : actions_) {
-        if (action.action == Action::kCreateEntity &&
+        if (action.action == Action::kAssignComponent &&
             action.type_info != nullptr && action.ptr != nullptr
             && action.type_info->functions.destroy != nullptr) {
             action.type_info->functions.destroy(action.ptr);
